@@ -7,8 +7,8 @@
 # (scratch --verif-dir without regress/): a V means the generated search found the change by itself.
 set -u
 cd /verif
-OUT=seeded/MATRIX.md
-MX=/tmp/mx
+OUT="${MATRIX_OUT:-seeded/MATRIX.md}"
+MX="${MATRIX_SCRATCH:-/tmp/mx}"
 SEEDS="${@:-$(ls -d seeded/C* | sort)}"
 rm -rf $MX; mkdir -p $MX
 git -C /repo worktree add -q --detach $MX/repo HEAD || exit 2
